@@ -3,7 +3,7 @@ CHECK = {
                         "C19.gen_structure", "C19.gen_full", "C19.gen_over", "C19.gen_refill", "C19.gen_nonpos", "C19.gen_after", "C19.gen_enough",
                         "C19.gen_endTick", "C19.gen_currentTick", "C19.gen_endTime", "C19.adjust_sim", "C19.take_sim", "C19.run_sim",
                         "TBS.c19_upper", "TBS.not_starved_core",
-                        "C19.gen_rate_cap", "C19.c19_refill_fits", "C19.c19_wait_fits", "C19.gen_search", "C19.search_sound", "C19.c19_search_total", "C19.c19_made_buckets_fit", "C19.c19_burnt_tokens_witness", "C19.c19_refill_overflow_witness", "C19.c19_refill_sum_overflow_witness"],
+                        "C19.gen_rate_cap", "C19.c19_refill_fits", "C19.c19_wait_fits", "C19.gen_search", "C19.search_sound", "C19.c19_search_total", "C19.c19_made_buckets_fit", "C19.c19_burnt_tokens_witness", "C19.gen_turnstile", "C19.c19_sent_lower_bounded", "C19.c19_refill_overflow_witness", "C19.c19_refill_sum_overflow_witness"],
         "lean_module": "CloakModel.Props.C19Search",
         "scenarios": ["C19"],
         "reset_ops": ["tb.new"],
